@@ -183,8 +183,16 @@ func goEapData(s *SX) eap.EapTypeData {
 		// everything done with it - must be the same
 		h := valHash(s)
 		for i, at := range s.Tail(2) {
-			if err := a.SetAttr(eap.EapAkaPrimeAttrType(at.U(1)), at.B(2)); err != nil {
+			arg := at.B(2)
+			if err := a.SetAttr(eap.EapAkaPrimeAttrType(at.U(1)), arg); err != nil {
 				panic(setterRefused{err})
+			}
+			// the caller's buffer is transient: it is wiped / re-used once the setter has returned - at once, or (holdArgs)
+			// when the runner says so, e.g. between computing AT_MAC and sending the packet
+			if holdArgs {
+				heldArgs = append(heldArgs, arg)
+			} else {
+				wipe(arg)
 			}
 			if h%3 == 0 && (h>>(8+uint(i%40)))&1 == 1 {
 				quiet(func() { _, _ = a.Marshal() })
@@ -329,4 +337,23 @@ func okS(items ...*SX) string {
 	l := L(A("ok"))
 	l.Add(items...)
 	return l.String()
+}
+
+var (
+	holdArgs bool
+	heldArgs [][]byte
+)
+
+func wipe(b []byte) {
+	for j := range b {
+		b[j] ^= 0xee
+	}
+}
+
+// releaseArgs wipes the buffers that were handed to setters since holdArgs was set, and ends the hold
+func releaseArgs() {
+	for _, b := range heldArgs {
+		wipe(b)
+	}
+	heldArgs, holdArgs = nil, false
 }
